@@ -64,8 +64,36 @@ func (s *session) openPeer(name string, td uint64) *endpoint {
 	if o != delivered {
 		c.Failf("C15/honest-refused", "a peer with a valid status was dropped: %v", ep.res.err)
 	}
-	ep.answerEmpty()
+	s.answerBlocks(ep)
 	return ep
+}
+
+// answerBlocks: the second hostile connection serves the momentums of A it is asked for (the
+// downloader spreads its requests over every registered peer; an empty answer never reaches the
+// downloader and would cost the cycle a 9 s request expiry), and has no hashes to offer.
+func (s *session) answerBlocks(ep *endpoint) {
+	if ep.reqs == nil {
+		return
+	}
+	go func() {
+		for {
+			select {
+			case <-ep.done:
+				return
+			case rq := <-ep.reqs:
+				code, payload := uint64(codeBlockHashes), []byte{0xC0}
+				if rq.code == codeGetBlocks {
+					code, payload = s.answerAs("honest", rq)
+				}
+				if payload == nil {
+					continue
+				}
+				if o := ep.deliverBytes(code, payload, "answer to the node's "+codeName(rq.code)); o == stalled || o == blocked {
+					return
+				}
+			}
+		}
+	}()
 }
 
 func (s *session) releaseHeld() {
@@ -91,11 +119,17 @@ func (s *session) awaitRest(what string) bool {
 
 func afterSyncProp(c *pbt.C) {
 	tcase := time.Now()
-	defer func() { c.R.Count("ms_case", int(time.Since(tcase).Milliseconds())) }()
+	hname := "?"
+	defer func() {
+		c.R.Count("ms_case", int(time.Since(tcase).Milliseconds()))
+		c.R.Count("ms_case/"+hname, int(time.Since(tcase).Milliseconds()))
+		c.R.Count("cases/"+hname, 1)
+	}()
 	sh := world()
 	s := &session{c: c, sh: sh, validSet: map[uint64]bool{}, poolOK: map[types.Hash]bool{}, goodBlk: map[types.Hash]bool{}, t0: time.Now()}
 	s.seed = c.Uint64("seed", 0, 1<<32)
 	history := []string{"sync-completed", "sync-failed", "no-sync", "during-sync"}[c.Weighted("history", 5, 2, 2, 2)]
+	hname = history
 	s.k = uint64(c.Int("followerHeight", 1, 9))
 	s.tip = s.k + uint64(c.Int("ahead", 2, 5))
 	s.k0 = s.k
@@ -117,7 +151,12 @@ func afterSyncProp(c *pbt.C) {
 	s.pm = protocol.NewProtocolManager(minPeers, s.chainID, s.node.Bridge)
 	s.pm.Start()
 	s.note("history %q: follower at height %d, the hostile peer presents A up to %d, minPeers=%d", history, s.k, s.tip, minPeers)
-	defer s.teardown()
+	c.R.Count("ms_presetup", int(time.Since(tcase).Milliseconds()))
+	defer func() {
+		t := time.Now()
+		s.teardown()
+		c.R.Count("ms_td_total", int(time.Since(t).Milliseconds()))
+	}()
 	defer func() {
 		s.releaseHeld()
 		if traceClass == "all" {
@@ -131,13 +170,23 @@ func afterSyncProp(c *pbt.C) {
 			}
 		}
 	}()
-	if c.Bool("honestFirst") {
+	// the honest peer is connected before the unsolicited deliveries or only for the final probe; it
+	// is not connected before the synchronisation (it has nothing the downloader could use, and a
+	// request the downloader sends to it costs the cycle a 9 s expiry)
+	honestEarly := c.Bool("honestBeforeDeliveries")
+	if honestEarly && history == "no-sync" {
 		if !s.connectHonest() {
 			return
 		}
 	}
 
 	// ---- the earlier synchronisation
+	tPhase := time.Now()
+	phase := func(name string) {
+		c.R.Count("ms_"+name+"/"+history, int(time.Since(tPhase).Milliseconds()))
+		tPhase = time.Now()
+	}
+	phase("setup")
 	switch history {
 	case "sync-completed", "during-sync":
 		s.policy = "honest"
@@ -221,7 +270,13 @@ func afterSyncProp(c *pbt.C) {
 	if completed {
 		s.k = s.tip // the generators now work against a node at the tip
 	}
+	if honestEarly && history != "no-sync" && history != "during-sync" {
+		if !s.connectHonest() {
+			return
+		}
+	}
 
+	phase("sync")
 	// ---- unsolicited deliveries
 	var second *endpoint
 	n := c.Int("deliveries", 2, 6)
@@ -277,6 +332,7 @@ func afterSyncProp(c *pbt.C) {
 	c.Class(fmt.Sprintf("hash-deliveries-%s", few(hashDeliveries)))
 	c.Class(fmt.Sprintf("block-deliveries-%s", few(blockDeliveries)))
 
+	phase("deliveries")
 	// ---- every hostile connection that is still open gets a request answered
 	for _, ep := range []*endpoint{first, second} {
 		if ep == nil || ep.gone() || s.aborted {
@@ -294,9 +350,11 @@ func afterSyncProp(c *pbt.C) {
 	if s.aborted {
 		return
 	}
+	phase("requests")
 	if !s.finish(frontier0, pool0, dump0) {
 		return
 	}
+	phase("finish")
 	if completed {
 		c.NonTrivial()
 		c.NonTrivialItem(fmt.Sprintf("%s/hashes-%s/blocks-%s", history, few(hashDeliveries), few(blockDeliveries)))
